@@ -399,6 +399,12 @@ static void gen_conv(struct scen *sc, struct rng *r, long c)
 		sc->cfg.iv_mode = RTR_INTERVAL_MODE_IGNORE_ANY;
 		CNT("sim/scenarios_with_responses_of_over_300_pdus_per_kind");
 	}
+	if (c % 4 == 1) {
+		/* another socket on the same tables is stopped while this one is inside a response (any response, or not before
+		 * a reload) */
+		sc->cfg.other_leaves_at_byte = 8 + (long)rndn(r, 200);
+		sc->cfg.other_leaves_in_a_reload = rndp(r, 2, 3);
+	}
 	if (c % 11 == 5)
 		sc->no_data = true, add_event(&sc->cfg, (time_t)(1 + rndn(r, (uint32_t)span + 1)), 5, 0);
 	if (c % 13 == 6) {
@@ -765,6 +771,11 @@ static void gen_reload(struct scen *sc, struct rng *r, long c)
 	}
 	sc->cfg.xplan[0].pos = -1;
 	sc->cfg.nxplan = 9;
+	if (c % 3 == 1) {
+		/* another socket on the same tables is stopped while this one is in the middle of a reload */
+		sc->cfg.other_leaves_at_byte = 8 + (long)rndn(r, 120);
+		sc->cfg.other_leaves_in_a_reload = true;
+	}
 	for (int i = 0; i < 6; i++)
 		add_event(&sc->cfg, (time_t)(1 + i * (sc->cfg.refresh + 1)), 1, 1 + rndn(r, 20));
 	if (c % 5 == 2) {
